@@ -223,7 +223,7 @@ def m_dtype_field_mismatch(mp, rng):
         t.segment.end = 0
 
 
-_LOCATIONS = ["/etc/passwd", "../../secret.bin", "..", "", "a/../../b", "/dev/zero", "C:\\x", "x\x00y", "sub/ok.bin", "~/.ssh/id_rsa", "/proc/self/mem"]
+_LOCATIONS = ["/etc/passwd", "../../secret.bin", "..", "", "a/../../b", "/dev/zero", "C:\\x", "x\x00y", "sub/ok.bin", "./x.bin", "a//b.bin", "a/./b.bin", "~/.ssh/id_rsa", "/proc/self/mem"]
 
 
 def m_external_data(mp, rng):
